@@ -1116,6 +1116,17 @@ fire("c15-clamp-calls-its-bound-parameters", "C15", ARRAY,
 fire("c15-invert-without-bool-implementation", "C15", BUILTIN2,
      "@invert.register(bool)\ndef _invert_bool(x):\n    return not x  # operator.invert(True) is the integer -2\n", "", "R15.13", "invert")
 
+
+# ---- R06.11-R06.13
+fire("c06-einsum-labels-in-union-order", "C06", TENSOR,
+     '        "".join(new_symbols[k] for k in x.inputs) + x_out\n', '        "".join(new_symbols[k] for k in inputs if k in x.inputs) + x_out\n', "R06.11", "eager_einsum")
+fire("c06-getslice-length-floor-instead-of-ceil", "C06", DOMAINS,
+     "                shape[i] = max(0, (stop - start + step - 1) // step)\n                i -= 1", "                shape[i] = max(0, stop - start) // step\n                i -= 1", "R06.12", "_find_domain_getslice")
+silent("c06-s-getslice-length-negated-floor", "C06", DOMAINS,
+       "                shape[i] = max(0, (stop - start + step - 1) // step)\n                i -= 1", "                shape[i] = max(0, -((start - stop) // step))\n                i -= 1")
+fire("c06-slice-tensor-branch-typed-by-index", "C06", TERMS,
+     "            return type(index)(data, index.inputs, self.output.dtype)", "            return type(index)(data, index.inputs, index.dtype)", "R06.13", "Slice.eager_subs")
+
 # ===== derived variants: must stay at the END of this file (they enumerate every rename() variant above) =====
 # `if c: A else: B` -> `if not c: B else: A` in the anchor functions (behaviour-preserving)
 def invert(prop, file, qual):
